@@ -28,13 +28,16 @@ PROP_ID = "C20"
 LEVEL = "exploration"
 QUICK_SHARDS = 4
 RULE = (
-    "Rectangles inside 60 S-90 N are drawn per axis as two grid lines of the "
+    "Rectangles (bounds as float / int / NumPy scalar / 0-d array, the same "
+    "objects for all calls of a case) inside 60 S-90 N are drawn per axis as two grid lines of the "
     "1/120 degree grid (free, inside one tile, straddling a tile border, "
     "touching a border, at the outer limit, snapped to exactly representable "
     "lines, zero lines apart = thinner than a cell; 1-600 cells) plus a "
     "displacement per edge from {0, +-1e-9, +-1e-13, uniform within a cell}; "
     "every tile border segment, four-tile corner and outer limit is enumerated "
-    "with aligned / unaligned / thin rectangles; all 27 tiles are enumerated "
+    "with aligned / unaligned / thin rectangles; boxes over 5-27 tiles "
+    "(get_tiles, grids) and strips 1-3 cells thick across >= 3 tiles of a "
+    "row or column (also elevation) are generated; all 27 tiles are enumerated "
     "for bounds -> grids; cache histories are lists of get_tile / evict / "
     "elevation operations against a warm or cold temporary cache directory; "
     "result histories are 2-4 requests (elevation / get_native_grids / "
@@ -71,8 +74,16 @@ ASSUMPTIONS = [
     ".DEM in the directory is delivered correctly by the next undisturbed "
     "request, and that an intact left-over archive may be reused",
     "cache: the directory is typhon.topography._data_path set directly, or "
-    "resolved by _get_data_path from TYPHON_DATA_PATH / XDG_CACHE_HOME "
-    "pointing into the temporary directory",
+    "resolved by _get_data_path from TYPHON_DATA_PATH / XDG_CACHE_HOME in "
+    "the process environment, or from TYPHON_DATA_PATH given only in the "
+    "[environment] section of a configuration file (read into "
+    "typhon.config.conf as typhon.config does for TYPHONRC; typhon's "
+    "environment handler documents this fallback); the resolved directory "
+    "must be the configured path or lie below it, TYPHON_DATA_PATH wins "
+    "over XDG_CACHE_HOME; working directory and HOME are temporary",
+    "bounds are passed as Python floats, ints (whole degrees), NumPy "
+    "scalars or 0-d arrays (float64; float32 only for edges >= 0.19 cell "
+    "away from every grid line) and must be left unchanged by every call",
 ]
 
 NROWS = 18000           # rows of 1/120 degree between 90 N and 60 S
@@ -351,6 +362,10 @@ def label_rect(ctx, rect):
         ctx.label("2-tiles-lon")
     if nlat == 2 and nlon == 2:
         ctx.label("4-tiles")
+    if nlat * nlon == 3:
+        ctx.label("3-tiles")
+    if nlat * nlon > 4:
+        ctx.label("%d-tiles" % (nlat * nlon), "more-than-4-tiles")
     if rect.M0 == -180:
         ctx.label("lon=-180")
     if rect.M1 == 180:
@@ -370,6 +385,38 @@ def label_rect(ctx, rect):
             ctx.label("edge-within-1e-6-cell-of-tile-border")
     unaligned = not all(near_line(e) for e in edges)
     ctx.nontrivial = unaligned or nlat > 1 or nlon > 1
+
+
+ARGTYPES = ["float", "int", "np.float64", "np.float32", "0d", "0d-f32"]
+
+
+def make_args(rect, argtype):
+    """the four bounds (lat_min, lon_min, lat_max, lon_max) as objects of the
+    requested type; the values are exactly those of the oracle's rectangle"""
+    vals = rect.args()
+    if argtype == "int":
+        out = [int(v) for v in vals]
+    elif argtype == "np.float64":
+        out = [np.float64(v) for v in vals]
+    elif argtype == "np.float32":
+        out = [np.float32(v) for v in vals]
+    elif argtype == "0d":
+        out = [np.array(v, dtype=np.float64) for v in vals]
+    elif argtype == "0d-f32":
+        out = [np.array(v, dtype=np.float32) for v in vals]
+    else:
+        out = [float(v) for v in vals]
+    if [float(v) for v in out] != list(vals):
+        raise ValueError("argument type %s cannot hold %r" % (argtype, vals))
+    return out
+
+
+def check_args_untouched(ctx, call, rect, argtype, args):
+    """the caller's bound objects still hold the rectangle after the call"""
+    now = [float(np.asarray(v)) for v in args]
+    ctx.check(now == list(rect.args()), "arguments-modified/" + call, lambda: (
+        "%s(lat_min, lon_min, lat_max, lon_max) called with %s bounds %r "
+        "left the caller's objects at %r" % (call, argtype, rect.args(), now)))
 
 
 def check_elevation(ctx, prefix, rect, lats, lons, elev, requested=()):
@@ -422,12 +469,19 @@ def check_rect(case, ctx):
         return "rectangle lat %r..%r lon %r..%r" % (
             rect.lat_min, rect.lat_max, rect.lon_min, rect.lon_max)
 
+    # the same bound objects are handed to all three calls
+    argtype = case.get("argtype", "float")
+    args = make_args(rect, argtype)
+    ctx.label("args-" + argtype)
+
     # --- get_native_grids
-    lats_g, lons_g = SRTM30.get_native_grids(*rect.args())
+    lats_g, lons_g = SRTM30.get_native_grids(*args)
+    check_args_untouched(ctx, "get_native_grids", rect, argtype, args)
     check_grids(ctx, "native_grids", rect, lats_g, lons_g)
 
     # --- get_tiles
-    got = list(SRTM30.get_tiles(*rect.args()))
+    got = list(SRTM30.get_tiles(*args))
+    check_args_untouched(ctx, "get_tiles", rect, argtype, args)
     must, may = rect.tiles()
     if set(must) != set(may):
         ctx.label("tile-set-ambiguous")
@@ -446,11 +500,17 @@ def check_rect(case, ctx):
         % (describe(), got, extra)))
 
     # --- elevation
+    if not case.get("elevation", True):
+        ctx.label("without-elevation")
+        return
     with fake_tiles(SRTM30) as fk:
-        lats, lons, elev = SRTM30.elevation(*rect.args())
+        lats, lons, elev = SRTM30.elevation(*args)
+    check_args_untouched(ctx, "elevation", rect, argtype, args)
     check_elevation(ctx, "elevation", rect, lats, lons, elev, fk.requested)
     if len(set(fk.requested)) > 1:
-        ctx.label("mosaic-of-%d-tiles" % len(set(fk.requested)))
+        n = len(set(fk.requested))
+        ctx.label("mosaic-of-%d-tiles" % n if n <= 4
+                  else "mosaic-of-5+-tiles")
 
 
 # --------------------------------------------------------------------------
@@ -543,16 +603,97 @@ def axis_strategy(n_lines, tile, lo_lim, exact=False):
     return build()
 
 
+def f32_axis(n_lines, lo_lim):
+    """edges that float32 holds exactly and that stay >= 0.19 cell away from
+    every grid line (float32 arithmetic inside typhon is good to 1e-3 cell)"""
+    @st.composite
+    def build(draw):
+        a = draw(st.integers(0, n_lines - 1))
+        b = min(n_lines - 1, a + draw(st.one_of(st.integers(0, 3),
+                                                st.integers(0, 300))))
+        fa = draw(st.floats(0.2, 0.8))
+        fb = draw(st.floats(0.2, 0.8))
+        lo = float(np.float32((a + fa) / 120 + lo_lim))
+        hi = float(np.float32((b + fb) / 120 + lo_lim))
+        if not lo < hi:
+            lo, hi = (float(np.float32((a + 0.2) / 120 + lo_lim)),
+                      float(np.float32((a + 0.8) / 120 + lo_lim)))
+        return [lo, hi]
+    return build()
+
+
 def rect_cases():
-    def pack(t):
-        return {"lat_min": t[0][0], "lat_max": t[0][1],
-                "lon_min": t[1][0], "lon_max": t[1][1]}
+    usual = st.sampled_from(["float", "float", "float", "np.float64",
+                             "0d", "0d"])
     mixed = st.tuples(axis_strategy(NROWS, TILE_H, -60),
-                      axis_strategy(NCOLS, TILE_W, -180))
+                      axis_strategy(NCOLS, TILE_W, -180), usual)
     exact = st.tuples(axis_strategy(NROWS, TILE_H, -60, exact=True),
-                      axis_strategy(NCOLS, TILE_W, -180, exact=True))
-    return st.integers(0, 9).flatmap(
-        lambda k: exact if k == 0 else mixed).map(pack)
+                      axis_strategy(NCOLS, TILE_W, -180, exact=True), usual)
+    # whole degrees, 1-5 degrees wide, passed as Python ints
+    ints = st.tuples(
+        st.tuples(st.integers(-60, 89), st.integers(1, 5)).map(
+            lambda t: [t[0], min(90, t[0] + t[1])]),
+        st.tuples(st.integers(-180, 179), st.integers(1, 5)).map(
+            lambda t: [t[0], min(180, t[0] + t[1])]),
+        st.just("int"))
+    f32 = st.tuples(f32_axis(NROWS, -60), f32_axis(NCOLS, -180),
+                    st.sampled_from(["np.float32", "0d-f32"]))
+    return st.integers(0, 11).flatmap(
+        lambda k: exact if k == 0 else ints if k == 1 else f32 if k == 2
+        else mixed).map(lambda t: {
+            "lat_min": t[0][0], "lat_max": t[0][1],
+            "lon_min": t[1][0], "lon_max": t[1][1], "argtype": t[2]})
+
+
+# --------------------------------------------------------------------------
+# rectangles over more than four tiles
+# --------------------------------------------------------------------------
+@st.composite
+def many_tile_cases(draw):
+    """Large boxes over 6 .. 27 tiles (get_tiles / get_native_grids only) and
+    strips 1-3 cells thick across >= 3 tiles of a row or column (also
+    elevation: the mosaic stays small)."""
+    delta = st.sampled_from([0.0, 0.0, 1e-9, -1e-9, 0.3 / 120, -0.6 / 120])
+
+    def span(n_tiles, size, lo_lim, at_least):
+        # from somewhere in tile a to somewhere in tile b, b - a + 1 >= at_least
+        a = draw(st.integers(0, n_tiles - at_least))
+        b = draw(st.integers(a + at_least - 1, n_tiles - 1))
+        lo = a * size + draw(st.sampled_from([0.0, 0.0, 1.0, 17.25,
+                                              size - 0.5, size - 1.0]))
+        hi = b * size + draw(st.sampled_from([size, size, size - 1.0, 0.5,
+                                              1.0, 23.75]))
+        if hi - lo < 0.01:
+            lo, hi = a * size, (b + 1) * size
+        return [lo_lim + lo, lo_lim + hi]
+
+    def thin(n_lines, tile, lo_lim):
+        line = draw(st.one_of(
+            st.integers(0, n_lines - 3),
+            st.integers(1, n_lines // tile - 1).map(lambda k: k * tile - 1)))
+        w = draw(st.integers(1, 3))
+        lo = line / 120 + lo_lim + draw(delta)
+        hi = (line + w) / 120 + lo_lim + draw(delta)
+        lo = max(lo, float(lo_lim))
+        hi = min(hi, float(lo_lim + n_lines // 120))
+        return [lo, hi]
+
+    kind = draw(st.sampled_from(["box", "box", "row-strip", "row-strip",
+                                 "column-strip"]))
+    if kind == "box":
+        nlat = draw(st.integers(1, 3))
+        lat = span(3, 50.0, -60, nlat)
+        lon = span(9, 40.0, -180, 5 if nlat == 1 else 3)
+    elif kind == "row-strip":
+        lat = thin(NROWS, TILE_H, -60)
+        lon = span(9, 40.0, -180, 3)
+    else:
+        lat = span(3, 50.0, -60, 3)
+        lon = thin(NCOLS, TILE_W, -180)
+    return {"lat_min": lat[0], "lat_max": lat[1],
+            "lon_min": lon[0], "lon_max": lon[1],
+            "argtype": draw(st.sampled_from(["float", "float", "0d"])),
+            "elevation": kind != "box"}
 
 
 # --------------------------------------------------------------------------
@@ -705,6 +846,16 @@ def check_results(case, ctx):
     from typhon.topography import SRTM30
     held = []       # (step, role, array, copy of its content)
     scrambled_before = False
+    argtype = case.get("argtype", "float")
+    ctx.label("args-" + argtype)
+    bound_objects = {}      # one set of bound objects per distinct rectangle
+
+    def bounds(rect):
+        if rect.args() not in bound_objects:
+            bound_objects[rect.args()] = make_args(rect, argtype)
+        else:
+            ctx.label("bound-objects-used-again")
+        return bound_objects[rect.args()]
     try:
         with fake_tiles(SRTM30) as fk:
             for n, step in enumerate(case["steps"]):
@@ -718,13 +869,18 @@ def check_results(case, ctx):
                     arrays = [("lat", lats), ("lon", lons)]
                 elif call == "native_grids":
                     rect = Rect(step["rect"])
-                    lats, lons = SRTM30.get_native_grids(*rect.args())
+                    args = bounds(rect)
+                    lats, lons = SRTM30.get_native_grids(*args)
+                    check_args_untouched(ctx, "get_native_grids", rect,
+                                         argtype, args)
                     ok = check_grids(ctx, prefix, rect, lats, lons) is not None
                     arrays = [("lat", lats), ("lon", lons)]
                 else:
                     rect = Rect(step["rect"])
                     del fk.requested[:]
-                    lats, lons, elev = SRTM30.elevation(*rect.args())
+                    args = bounds(rect)
+                    lats, lons, elev = SRTM30.elevation(*args)
+                    check_args_untouched(ctx, "elevation", rect, argtype, args)
                     ok = check_elevation(ctx, prefix, rect, lats, lons, elev,
                                          fk.requested)
                     arrays = [("lat", lats), ("lon", lons), ("elev", elev)]
@@ -807,7 +963,9 @@ def result_cases(draw):
         else:
             step["rect"] = pack(r)
         steps.append(step)
-    return {"steps": steps}
+    return {"steps": steps,
+            "argtype": draw(st.sampled_from(["float", "np.float64", "0d",
+                                             "0d"]))}
 
 
 # --------------------------------------------------------------------------
@@ -894,9 +1052,14 @@ def check_cache(case, ctx):
     mode = case["mode"]
     ctx.label("dir-" + mode)
     tmp = tempfile.mkdtemp(prefix="vp-c20-")
-    env_keys = ("TYPHON_DATA_PATH", "XDG_CACHE_HOME")
+    from typhon.config import conf
+    env_keys = ("TYPHON_DATA_PATH", "XDG_CACHE_HOME", "HOME")
     old_env = {k: os.environ.get(k) for k in env_keys}
     old_path = topo._data_path
+    old_cwd = os.getcwd()
+    had_section = conf.has_section("environment")
+    old_conf = {k: conf.get("environment", k, raw=True) for k in env_keys
+                if had_section and conf.has_option("environment", k)}
     orig_download = SRTM30.__dict__["download_tile"]
     orig_urlopen = urllib.request.urlopen
     downloads = []
@@ -927,21 +1090,46 @@ def check_cache(case, ctx):
                                      (name + ".dem").upper()), k[0])
 
     try:
+        # Nothing of the surroundings decides: the working directory and HOME
+        # lie in the temporary directory, the two variables are neither in
+        # the process environment nor in typhon's configuration.
+        os.chdir(tmp)
+        os.makedirs(os.path.join(tmp, "home"))
+        os.environ["HOME"] = os.path.join(tmp, "home")
+        for k in env_keys[:2]:
+            os.environ.pop(k, None)
+            if had_section:
+                conf.remove_option("environment", k)
+        configured = os.path.join(tmp, "data")
         if mode == "attr":
-            topo._data_path = os.path.join(tmp, "cache")
+            configured = topo._data_path = os.path.join(tmp, "cache")
             os.makedirs(topo._data_path)
         else:
             topo._data_path = None
-            for k in env_keys:
-                os.environ.pop(k, None)
-            os.environ["TYPHON_DATA_PATH" if mode == "env-typhon"
-                       else "XDG_CACHE_HOME"] = os.path.join(tmp, "data")
+            if mode == "env-typhon":
+                os.environ["TYPHON_DATA_PATH"] = configured
+            elif mode == "env-xdg":
+                os.environ["XDG_CACHE_HOME"] = configured
+            else:
+                # TYPHON_DATA_PATH given only in the configuration file, read
+                # the way typhon.config reads the file named by TYPHONRC
+                rc = os.path.join(tmp, "typhonrc")
+                with open(rc, "w") as fh:
+                    fh.write("[environment]\nTYPHON_DATA_PATH: %s\n"
+                             % configured)
+                conf.read(rc)
+            if case.get("xdg_too") and mode != "env-xdg":
+                # TYPHON_DATA_PATH takes precedence over XDG_CACHE_HOME
+                os.environ["XDG_CACHE_HOME"] = os.path.join(tmp, "xdg")
+                ctx.label("xdg-set-as-well")
         cache_dir = topo._get_data_path()
-        inside = os.path.realpath(cache_dir).startswith(
-            os.path.realpath(tmp) + os.sep)
+        real = os.path.realpath(cache_dir)
+        inside = real == os.path.realpath(configured) or real.startswith(
+            os.path.realpath(configured) + os.sep)
         ctx.check(inside and os.path.isdir(cache_dir),
-                  "cache/directory-not-from-environment",
-                  "mode %s: _get_data_path() = %r" % (mode, cache_dir))
+                  "cache/directory-not-the-configured-one",
+                  "mode %s, configured %r: _get_data_path() = %r"
+                  % (mode, configured, cache_dir))
         if not inside:
             return
         if net:
@@ -1108,6 +1296,14 @@ def check_cache(case, ctx):
         setattr(SRTM30, "download_tile", orig_download)
         urllib.request.urlopen = orig_urlopen
         topo._data_path = old_path
+        os.chdir(old_cwd)
+        for k in env_keys:
+            if conf.has_section("environment"):
+                conf.remove_option("environment", k)
+        if not had_section:
+            conf.remove_section("environment")
+        for k, v in old_conf.items():
+            conf.set("environment", k, v)
         for k, v in old_env.items():
             if v is None:
                 os.environ.pop(k, None)
@@ -1118,7 +1314,8 @@ def check_cache(case, ctx):
 
 @st.composite
 def cache_cases(draw):
-    mode = draw(st.sampled_from(["attr", "attr", "env-typhon", "env-xdg"]))
+    mode = draw(st.sampled_from(["attr", "attr", "env-typhon", "env-xdg",
+                                 "config-file", "config-file"]))
     pool = draw(st.lists(st.integers(0, 26), min_size=1, max_size=4,
                          unique=True))
     tile = st.sampled_from(pool)
@@ -1132,13 +1329,15 @@ def cache_cases(draw):
             "marker": st.integers(0, 2),
             "ext": st.lists(st.integers(0, 2), min_size=4, max_size=4)}))
     ops = draw(st.lists(op, min_size=1, max_size=7))
-    return {"mode": mode, "warm": sorted(warm), "ops": ops}
+    return {"mode": mode, "warm": sorted(warm), "ops": ops,
+            "xdg_too": draw(st.booleans())}
 
 
 @st.composite
 def download_cases(draw):
     """the real download_tile against a harness network with broken transfers"""
-    mode = draw(st.sampled_from(["attr", "attr", "env-typhon", "env-xdg"]))
+    mode = draw(st.sampled_from(["attr", "attr", "env-typhon", "env-xdg",
+                                 "config-file"]))
     pool = draw(st.lists(st.integers(0, 26), min_size=1, max_size=2,
                          unique=True))
     tile = st.sampled_from(pool)
@@ -1164,6 +1363,7 @@ def download_cases(draw):
     if draw(st.integers(0, 5)) > 0:
         faults[0] = draw(cut)
     return {"mode": mode, "warm": sorted(warm), "ops": ops,
+            "xdg_too": draw(st.booleans()),
             "net": {"faults": sorted([k, v] for k, v in faults.items())}}
 
 
@@ -1172,6 +1372,8 @@ def suites(tier):
         Suite("rectangles", check_rect, strategy=rect_cases(),
               examples={"quick": 200, "thorough": 4000}),
         Suite("tile-borders-enumerated", check_rect, cases=border_cases),
+        Suite("many-tiles", check_rect, strategy=many_tile_cases(),
+              examples={"quick": 12, "thorough": 250}),
         Suite("tiles-exhaustive", check_tile, cases=tile_cases,
               exhaustive=True),
         Suite("cache-histories", check_cache, strategy=cache_cases(),
